@@ -17,6 +17,7 @@ package license
 import (
 	"crypto/rand"
 	"encoding/base64"
+	"fmt"
 	"math"
 	"math/big"
 
@@ -47,7 +48,14 @@ func NewV2() *V2 {
 }
 
 // parseV2 decodes the license and verifies it.
-func parseV2(data string) (*V2, error) {
+func parseV2(data string) (l *V2, err error) {
+
+	// The decoders below index and allocate using lengths found in the input
+	defer func() {
+		if r := recover(); r != nil {
+			l, err = nil, fmt.Errorf("license: malformed v2 license: %v", r)
+		}
+	}()
 
 	// Decode from base64 first
 	raw, err := base64.RawURLEncoding.DecodeString(data)
